@@ -1,0 +1,13 @@
+//go:build verif
+
+package pool
+
+// SimYield, when set, is called at every synchronisation point of the pool so that a
+// deterministic simulator can decide which goroutine proceeds. Only compiled with -tags verif.
+var SimYield func(point string)
+
+func yield(point string) {
+	if f := SimYield; f != nil {
+		f(point)
+	}
+}
